@@ -12,7 +12,7 @@ ID = 'C18'
 LEVEL = 'model_checking'
 ENGINE = 'E2 mc.bfs + E3'
 TECHNIQUE = 'explicit-state BFS over set/delete/merge histories of the real BoundedAttributes in lock-step with an ordered-map reference (frontier closes for bounded capacity); exhaustive merge chains and environment tables for Resource'
-RULE = ('container configs: capacity{None,0,1,2} x value limit{None,2} x immutable{F,T}; operations set(k,v) k in {a,b,c,"",1} v in 14 values '
+RULE = ('container configs: capacity{None,0,1,2} x value limit{None,2} x immutable{F,T}; operations set(k,v) k in {a,b,c,"",1} v in 17 values '
         '(valid scalars, long string, decodable/undecodable bytes, None, homogeneous/mixed/None-holding sequences, bytes tuple, dict, object), '
         'del(k), merge_in(3 sources); canonical state = ordered items (dropped is checked per transition); resources: all 24^3 merge chains; '
         'create x env table; Deep.start x 0-2 resource plugins x both orders; non-trivial = an eviction, a rejection or an override happened')
@@ -27,7 +27,8 @@ class Opaque:
     pass
 
 
-VALUES = [1, 1.5, True, 's', 'long-string', b'b', b'\xff', None, [1, 2], [1, 'a'], ['a', None], (b'x',), {}, Opaque()]
+VALUES = [1, 1.5, True, 's', 'long-string', b'b', b'\xff', None, [1, 2], [1, 'a'], ['a', None], (b'x',), {}, Opaque(),
+          b'long-bytes', [b'long-bytes', 'long-string'], ('', 'xyz')]
 MERGES = [{'a': 9}, {'b': 'x', 'c': 'y'}, {}]
 INVALID = object()
 
